@@ -112,6 +112,26 @@ fn run_spec(rep: &mut Report, spec: &TreeSpec, replay: J, label: &str) {
                 (Some(a), Some(c)) if a == c => {}
                 _ => {
                     let t = vb.or(vx).map(|v| v["t"].as_str().unwrap_or("?").to_owned()).unwrap_or("absent".into());
+                    // database quirk: two canonical descriptors share one wire name and instances of the class use both
+                    let mut canon_by_wire: BTreeMap<String, BTreeSet<String>> = BTreeMap::new();
+                    for other in specs.iter().filter(|o| o.class == ns.class) {
+                        for (ok, _) in &other.props {
+                            if let Some(tr) = dbwalk::travel(db, &other.class, ok) {
+                                if tr.back_name == back {
+                                    canon_by_wire.entry(tr.wire_name.clone()).or_default().insert(tr.resolved.canonical.name.to_string());
+                                }
+                            }
+                        }
+                    }
+                    if let Some((w, _)) = canon_by_wire.iter().find(|(_, c)| c.len() > 1) {
+                        rep.violation(
+                            &format!("C06:shared-wire-name:{}.{}", ns.class, w),
+                            &format!("{}: {}.{}: binary gives {}, xml gives {}", label, ns.class, back, vb.map(|v| v.to_string()).unwrap_or("<absent>".into()), vx.map(|v| v.to_string()).unwrap_or("<absent>".into())),
+                            replay.clone(),
+                            J::Null,
+                        );
+                        continue;
+                    }
                     rep.violation(
                         &format!("C06:formats-disagree:{}", t),
                         &format!("{}: {}.{} (set as {}): binary gives {}, xml gives {}", label, ns.class, back, k, vb.map(|v| v.to_string()).unwrap_or("<absent>".into()), vx.map(|v| v.to_string()).unwrap_or("<absent>".into())),
